@@ -110,3 +110,88 @@ TEXT = {
         "technique": "Coq theorem over all configurations (finite maps, std++) + differential execution against topics package",
     },
 }
+
+STEP_NOTE = (" Statements are per step with the model state before the step as context (checker chk_Cxx, extracted and applied to the "
+             "implementation's observations) and are lifted to every history by induction over the event list (run_all).")
+TEXT.update({
+    "C01": {
+        "level": "Theorems C01_forward_exact / C01_never_forward_unknown: from ANY running session state a decodable PUBLISH the session "
+                 "accepts, whose topic ID denotes (specification `denotes`: registered / predefined for this client / decoded short "
+                 "name) a name valid in MQTT, makes the step write exactly one MQTT PUBLISH with the same DUP, retain, payload (any "
+                 "length), QoS (-1 -> 0), message ID and that name; an ID that denotes nothing is never forwarded. "
+                 "C01_checker_sound / C01_all_histories: the executable statement accepts every step of every history.",
+        "note": GW_NOTE + STEP_NOTE,
+        "technique": "Coq step theorems over all states and field values (no invariant needed) + differential execution of handler1 under synctest",
+    },
+    "C02": {
+        "level": "Theorem C02_checker_sound_partial / C02_all_histories: in every reachable state with an active client, the step "
+                 "handling a broker PUBLISH writes one MQTT-SN PUBLISH with the same payload/QoS/retain under an ID the CLIENT can "
+                 "resolve (short decoding, shared predefined map, or a registered ID it was told: ghost list of REGACK/SUBACK/REGISTER) "
+                 "or a REGISTER for the name followed, at the client's REGACK, by the PUBLISH with that ID - except in the two classes "
+                 "recorded as known findings (ID allocated for a SUBSCRIBE whose SUBACK is pending / was refused), which C02_refuted "
+                 "shows to be real in the faithful model and the check reproduces on the implementation.",
+        "note": GW_NOTE + STEP_NOTE + " Partial: the property is violated by the pinned code in the two recorded classes.",
+        "technique": "Coq invariant (ghost client view) + per-step theorem 'every failure is a known class' + refutation witness + differential execution",
+    },
+    "C03": {
+        "level": "Theorem C03_checker_sound / C03_all_histories: in every reachable state the ten translations (SUBSCRIBE, UNSUBSCRIBE, "
+                 "PUBREL, PINGREQ, DISCONNECT(0) to MQTT; PUBREC, PUBCOMP, UNSUBACK, SUBACK, PINGRESP to MQTT-SN) produce exactly one "
+                 "packet of the paired type with the same message ID, the filter the topic ID denotes, the requested QoS; SUBACK is "
+                 "accepted iff the broker's code is 0-2 and carries that code and the ID allocated at SUBSCRIBE time.",
+        "note": GW_NOTE + STEP_NOTE,
+        "technique": "Coq per-step theorem over all reachable states and field values (invariant: stored topic IDs are 16-bit) + differential execution",
+    },
+    "C04": {
+        "level": "Theorems C04_checker_sound / C04_side_condition_invariant / C04_all_histories: for every history of any length "
+                 "(induction; exhausting the 65534 IDs costs nothing) every topic ID told to the client lies in 1..0xFFFE, is not a "
+                 "predefined ID of the session's client ID, never denotes two names (ghost list of all pairs told), and after "
+                 "exhaustion nothing new is allocated - for histories in which the peer does not re-CONNECT under another client ID "
+                 "once IDs are in use; that excluded class is refuted on the model (C04_refuted) and recorded as a known finding.",
+        "note": GW_NOTE + STEP_NOTE + " Partial: the client-ID-change class is excluded (known finding).",
+        "technique": "Coq invariant over all histories (ID sequence + ghost hand-out list) + refutation witness + differential execution incl. exhaustion histories",
+    },
+    "C07": {
+        "level": "Theorems C07_checker_sound / C07_all_histories / C07_connected_implies_accepted: in every reachable state a session "
+                 "that is not Disconnected was accepted by the broker (ghost flag set only by the broker's CONNACK(0) for the pending "
+                 "exchange); before that, CONNACK 'accepted' is never written and nothing but the exchange's CONNECT, the DISCONNECT "
+                 "answering a plain DISCONNECT and the QoS -1 exception reaches the broker.",
+        "note": GW_NOTE + STEP_NOTE,
+        "technique": "Coq invariant over all reachable states + per-step theorem + differential execution of pre-connect histories",
+    },
+    "C08": {
+        "level": "Theorems C08_checker_sound / C08_all_histories: every MQTT CONNECT carries, with authentication enabled, exactly the "
+                 "credentials of the well-formed PLAIN AUTH of the current exchange (ghost gw_auth_seen) and, disabled, exactly the "
+                 "configured ones whatever AUTH the client sends; an unknown method is answered CONNACK 'not supported' without CONNECT. "
+                 "One excluded step class (client asleep inside its own re-CONNECT exchange, the CONNACK is queued and lost), shown exact "
+                 "by C08_excluded_is_rejected and recorded as a known finding.",
+        "note": GW_NOTE + STEP_NOTE + " Partial: one excluded class (known finding).",
+        "technique": "Coq invariant over the connect-exchange automaton + per-step theorem + differential execution of exchange orderings",
+    },
+    "C09": {
+        "level": "Theorems C09_checker_sound / C09_all_histories: WILLTOPICREQ only for a CONNECT with the Will flag, WILLMSGREQ only in the "
+                 "step handling the awaited WILLTOPIC, at most one MQTT CONNECT per step and only when the exchange is complete, carrying "
+                 "exactly the client's will topic/QoS/retain/message, no will without the flag, CONNACK code table. Excluded: the wake-up "
+                 "flush of a client that fell asleep inside its own exchange (the queued WILL*REQ is written then; the order is "
+                 "unchanged, the per-step clause cannot attribute it; C11 checks the flush).",
+        "note": GW_NOTE + STEP_NOTE,
+        "technique": "Coq invariant over the connect-exchange automaton + per-step theorem + differential execution of exchange orderings",
+    },
+    "C11": {
+        "level": "Theorems C11_checker_sound / C11_all_histories / C11_asleep_again: while the client is asleep a step writes it nothing "
+                 "unless it handles its PINGREQ, CONNECT or DISCONNECT; the PINGREQ step writes exactly the buffered packets once, in "
+                 "arrival order, then PINGRESP, and leaves the client asleep with an empty buffer - for every sleep cycle (any state). "
+                 "Excluded and refuted on the model (C11_refuted), recorded as a known finding: the broker's CONNACK for a re-CONNECT "
+                 "that was pending when the client announced sleep.",
+        "note": GW_NOTE + STEP_NOTE + " Partial: event-atomic model; the unsynchronised access to pktBuffer by two goroutines (schedule part of the property) is outside it.",
+        "technique": "Coq per-step theorem over all reachable states + refutation witness + differential execution of sleep/wake cycles",
+    },
+    "C24": {
+        "level": "Theorems C24_checker_sound / C24_all_histories: every MQTT packet a step writes satisfies mqtt_valid (QoS <= 2, PUBLISH "
+                 "topic non-empty without wildcards, non-zero packet identifiers where required, non-empty filters, CONNECT will flag "
+                 "iff non-empty will topic, no password without user) for ALL client input, under a sane configuration and a "
+                 "conforming broker (hypotheses wf_cfg', wf_event'). On the implementation the bytes on the broker connection are "
+                 "validated by the harness's own MQTT 3.1.1 parser, independent of paho.",
+        "note": GW_NOTE + STEP_NOTE,
+        "technique": "Coq invariant (everything stored for later sending is sendable/valid) + per-step theorem + independent MQTT parser on the implementation's byte stream",
+    },
+})
